@@ -83,6 +83,7 @@ type Engine struct {
 }
 
 type State struct {
+	globMemo map[*value]*value // isolate(): pointers of the shared initial globals -> this path's copies
 	panics  []*inFlight // Go panics in flight (innermost last)
 	e       *Engine
 	solver  *Solver
@@ -327,8 +328,16 @@ func (st *State) global(g *ssa.Global) *value {
 					}()
 				}
 				p, ok = st.e.baseGlob[g]
+				if ok {
+					// a private copy for this path (the shared table is what the initialisers left, never written again)
+					if st.globMemo == nil {
+						st.globMemo = map[*value]*value{}
+					}
+					p = isolate(p, st.globMemo).(*value)
+				}
 			}()
 			if ok {
+				st.globals[g] = p
 				return p
 			}
 		}
@@ -1381,6 +1390,31 @@ func (fr *frame) builtin(b *ssa.Builtin, args []value, cc *ssa.CallCommon) value
 		dst := args[0].([]value)
 		if src, ok := args[1].([]value); ok {
 			return BVConstI(int64(copy(dst, src)), 64)
+		}
+		if src, ok := args[1].(*Str); ok && src.Blob == nil {
+			// bytes of a string / byte string into a Go slice: the number copied is min(len(dst), len(src)); a symbolic
+			// source length is decided by forking over the values that matter
+			n := -1
+			if c, ok := asConcreteInt(src.Len); ok {
+				n = c
+			} else {
+				for c := 0; c < len(dst); c++ {
+					if fr.st.decide(Eq(src.Len, BVConstI(int64(c), 64))) {
+						n = c
+						break
+					}
+				}
+				if n < 0 {
+					n = len(dst) // at least as long as the destination
+				}
+			}
+			if n > len(dst) {
+				n = len(dst)
+			}
+			for i := 0; i < n; i++ {
+				dst[i] = src.at(i)
+			}
+			return BVConstI(int64(n), 64)
 		}
 	case "print", "println":
 		return nil
